@@ -975,7 +975,11 @@ def check_after_load(rec, ctx, tree, detector, n_steps, expect_post, expect_fina
                 cmp_containers(d, expect, e["state"])
                 report(rec, d, f"{mech}:probe-after-load", case, index,
                        detail_prefix=f"deep probe '{nm}' step {e['step']}: ")
-            for ev in [e for e in probes.events() if e["model"] == nm.replace("full", "trace")]:
+            traces = [e for e in probes.events() if e["model"] == nm.replace("full", "trace")]
+            if len(traces) != n_steps:
+                rec.violation(f"{mech}:probe-count", f"trace probe {nm.replace('full', 'trace')} ran {len(traces)}x "
+                                                     f"for {n_steps} readouts", case, index)
+            for ev in traces:
                 check_trace_snapshot(rec, ev, expect, mech, case, index)
     d = Diff()
     cmp_containers(d, expect_final, extract_containers(detector))
